@@ -419,6 +419,8 @@ def classify(component, what, case):
         return None
     if case.get("f27") and case.get("stage") == "print-eint":
         return "F27"
+    if case.get("stage") == "tagged-annotation" and case.get("wd") in ("all-tag", "impl-tag"):
+        return "F330"
     if case.get("kind") in ("chunk-value", "chunk-population", "chunk-multi") and case.get("stage") == "length":
         return "F69"
     return None
@@ -507,6 +509,11 @@ def run_lybtree(cx):
         mp = rm.get("p%d" % i, ["err", "NoReply"])
         if pi[:2] == ["err", "Crash"] or pm[:2] == ["err", "Crash"]:
             continue
+        orig = tg.tok(tg.untok(s, r[1]))
+        if pi == ["ok", want] and want != orig:
+            # the `_fails` witness of the tagged modes on libyang itself (finding F330): the tree comes back with the annotation
+            c2 = dict(c); c2["stage"] = "tagged-annotation"
+            cx.fail("lybtree", "parse(print t) != t under %s: tagged nodes come back with the wd:default annotation as metadata" % wd, c2)
         if pi != ["ok", want]:
             c["stage"] = "roundtrip"
             c["got"] = " ".join(pi)[:600]
